@@ -81,3 +81,14 @@ Definition run_two_fo := run_two IsNoneF64 IsNoneOptF64.
 Definition run_two_of := run_two IsNoneOptF64 IsNoneF64.
 Definition run_trend_f := run_trend IsNoneF64.
 Definition run_trend_o := run_trend IsNoneOptF64.
+
+(* ---- audit corner inputs (Props/C04.v (8)): the run also reports WHICH check of the code stopped it, first cell:
+        0 none, 1 the window assertion, 2 `assert!(other.len() >= len)` of the index bodies (Model/Driver.v guard_id) ---- *)
+Definition run_two_chk {T1 T2 : Type} (D1 : IsNone T1 float) (D2 : IsNone T2 float)
+           (fn : Z) (body : bool) (w : nat) (mp : option nat) (xs : list T1) (ys : list T2) : list Z :=
+  c_nat (guard_id (if body then check2_to w xs ys else check2_default w xs ys))
+  ++ run_two D1 D2 fn body w mp xs ys.
+Definition run_two_chk_ff := run_two_chk IsNoneF64 IsNoneF64.
+Definition run_two_chk_oo := run_two_chk IsNoneOptF64 IsNoneOptF64.
+Definition run_two_chk_fo := run_two_chk IsNoneF64 IsNoneOptF64.
+Definition run_two_chk_of := run_two_chk IsNoneOptF64 IsNoneF64.
